@@ -287,6 +287,8 @@ def channels : List ChanSpec := [
   pubChan "grpc:/drand.Protocol/Status:req" bEmpty,
   pubChan "grpc:/drand.Public/PublicRand:req" bEmpty,
   pubChan "grpc:/drand.Public/ChainInfo:req" bEmpty,
+  pubChan "grpc:/drand.Public/PublicRandStream:req" bEmpty,
+  pubChan "grpc:/drand.Public/ListBeaconIDs:req" bEmpty,
   pubChan "grpc:/grpc.health.v1.Health/Check:req" bEmpty,
   -- the key file's self-signature is made once with the long-term key and then served as public data
   { label := "identity:self-signature", kind := .sign, build := bIdentity, which := .longterm, msg := mSelfSign },
